@@ -103,9 +103,11 @@ THEOREMS = [
     'CpProofs.C19.parseAuth_not_digest',
 ]
 LEVEL = 'proof'
-TECHNIQUE = ('Lean 4 proof over a statement-by-statement model of basic_auth / digest_auth with the hash, base64, '
-             'charset codec and NFC as arbitrary function parameters; model tied to the tools by a differential run '
-             'driven by an independent RFC 2617/7617 client with systematic single-field corruption')
+TECHNIQUE = ('Lean 4 proof over a statement-by-statement model of Request.process_headers (one value), basic_auth and '
+             'digest_auth: general theorems with the hash, base64, charset codec, NFC and the RFC 2047 decoder as arbitrary '
+             'function parameters, plus instances with the concrete RFC 1321 MD5 / base64 / UTF-8 evaluated in the kernel; '
+             'model tied to the tools by a differential run driven by an independent RFC 2617/7617 client with systematic '
+             'single-field corruption')
 LEVEL_TEXT = ('Proved in Lean for every Authorization header string, configuration, method and clock value, with the hash, '
               'base64 decoder, accept_charset codec and NFC arbitrary functions: basic_auth lets a request through with '
               'login=u iff the header is "<basic> <b64>" whose bytes decode (accepted charset, else ISO-8859-1; NFC) to u:p '
@@ -117,33 +119,54 @@ LEVEL_TEXT = ('Proved in Lean for every Authorization header string, configurati
               'header fails the parser/constructor; an exception escapes iff qop=auth-int (F21: TypeError); the transcribed '
               'urllib list parsers give back the fields of any "name=\\"escaped value\\"" serialisation (arbitrary values), so '
               'an RFC 2617 client is admitted from its header text, and the concrete base64 decoder inverts the RFC 4648 '
-              'encoder, so an RFC 7617 client is admitted iff store[u]=p. Partial: '
-              'completeness and never-5xx exclude qop=auth-int (both full statements are proved false with the F21 '
-              'witness); MD5 collision resistance, base64, codecs, NFC are parameters; RFC 2047 header decoding is outside.')
+              'encoder, so an RFC 7617 client is admitted iff store[u]=p - both lifted through Request.process_headers '
+              '(strip + RFC 2047 decoding iff "=?": a client header reaches the tool unchanged; an encoded word is admitted '
+              'only as what it decodes to; undecodable = 400). Concrete hash: the Lean MD5 satisfies the RFC 1321 test suite '
+              'and reproduces the RFC 2617 section 3.5 response by kernel evaluation, digest_auth is evaluated end to end on '
+              'literal header bytes, and "admitted => the client used the stored password" is proved for every H in the '
+              'reduction form "... or an explicit collision of H exists". 401 challenges of both tools parse back to exactly '
+              'realm/nonce/algorithm/qop[/stale][/charset] for quote-free realms (false for a realm with a double quote: '
+              'refuted with a witness). Partial: completeness and never-5xx exclude qop=auth-int (both full statements are '
+              'proved false with the F21 witness); collision resistance is a hypothesis (explicit); NFC and the RFC 2047 '
+              'decoder are parameters; accept_charset values other than the UTF-8 / ISO-8859-1 / ASCII spellings are not generated.')
 LEVEL_NOTE = ('Trusted: Lean kernel (axioms propext, Classical.choice, Quot.sound only); lean/CpModel/Auth.lean as a '
-              'description of auth_basic.py/auth_digest.py, validated on every run by the differential stream (independent '
-              'RFC 2617/7617 client x corruption catalogue) and by cross-checking the driver\'s MD5/base64/UTF-8/int()/'
-              'strip/case/urllib-list-parser transcriptions against the running CPython; the harness.')
+              'description of auth_basic.py/auth_digest.py and of the header step of Request.process_headers, validated on '
+              'every run by the differential stream (independent RFC 2617/7617 client x corruption catalogue x RFC 2047 '
+              'words x debug flag), by comparing www_authenticate / the HttpDigestAuthorization constructor called directly, '
+              'and by cross-checking the driver\'s MD5/base64/UTF-8/int()/strip/case/urllib-list-parser transcriptions against '
+              'the running CPython; 208 of the 209 executable lines of the anchored functions are executed by the run (the '
+              'remaining one is proved unreachable); the harness.')
 TRUSTED_BASE = [
-    'MD5, base64, the accept_charset codec and NFC are parameters of the model (theorems hold for every function); '
-    'the driver\'s concrete MD5 / base64 / UTF-8 instances are cross-checked against CPython on every run',
+    'MD5, base64, the accept_charset codec, NFC and the RFC 2047 decoder are parameters of the general theorems (they '
+    'hold for every function); the concrete MD5 / base64 / UTF-8 instances used by the concrete theorems and by the driver '
+    'are cross-checked against CPython (hashlib, base64, codecs) on every run, MD5 additionally against the RFC 1321 '
+    'test suite by proof',
     'urllib.request.parse_http_list / parse_keqv_list are transcribed by hand (source hash pinned; cross-checked on '
     'every run); str.strip / upper / lower / int() use tables regenerated from the running CPython',
+    'email.header.decode_header (RFC 2047) is not transcribed: the model takes its result as a parameter; the harness '
+    'keeps only generated headers on which an independent small RFC 2047 reader agrees with it',
 ]
 ASSUMPTIONS = [
-    'the model starts at request.headers.get("authorization"): RFC 2047 decoding and strip() of header values in '
-    'Request.process_headers are outside (generated headers avoid "=?")',
-    'collision resistance of MD5 is outside any proof: "only the right credentials pass" is the digest equality',
-    'realms contain no double quote or backslash (basic_auth rejects the former as a configuration error)',
+    'collision resistance of MD5 is outside any proof and stated as an explicit alternative: "only the right '
+    'credentials pass" is the digest equality, and digest equality means the stored password was used or a collision '
+    'of H is exhibited (digest_sound_password_or_collision)',
+    'realms contain no double quote or backslash where a well-formed challenge is demanded (basic_auth rejects the '
+    'former as a configuration error, digest_auth pastes both unescaped: only soundness is demanded of such '
+    'configurations, the model comparison pins the rest)',
     'the entity body needed for qop=auth-int is not available to the tool (finding F21)',
+    'the header uri field is not compared with the request target by the code; the statement is read as "the uri the '
+    'header names" (RFC 2617 3.2.2.5 leaves the comparison to the server)',
 ]
-RULE = ('per generated configuration (tool x realm x accept_charset x store kind x 2-5 users over ASCII / Latin-1 / '
-        'non-BMP / colon / quote / NFD / empty-password / compatibility twins on which NFC, NFKC, NFD, casefold and strip '
-        'differ, stored and sent): headers produced by the independent client for every user, '
-        'qop x algorithm x method x nonce age, then one corruption drawn from a fixed catalogue (semantic: computed with '
-        'wrong inputs; tamper: field changed after signing; syntactic: scheme, quoting, base64, white space, missing / '
-        'extra / empty fields; wire charset).  Non-trivial = an Authorization header was sent; distinct = distinct '
-        '(configuration, method, clock, header) tuple')
+RULE = ('per generated configuration (tool x realm x accept_charset x store kind x debug flag x 2-5 users over ASCII / '
+        'Latin-1 / non-BMP / colon / quote / NFD / empty-password / compatibility twins on which NFC, NFKC, NFD, casefold and '
+        'strip differ, stored and sent; 6 % realms with a double quote or backslash): headers produced by the independent '
+        'client for every user, qop x algorithm x method x nonce age, then one corruption drawn from a fixed catalogue '
+        '(semantic: computed with wrong inputs, a method= parameter naming the method the digest was computed for; tamper: '
+        'field changed after signing; syntactic: scheme, quoting, quoted-pair, parameter-name case, base64, white space, '
+        'missing / extra / duplicated / empty fields; wire charset; RFC 2047 encoded words around the whole value, the '
+        'parameters, the scheme, one field, undecodable, decoding beyond U+00FF, bare "=?"; key-holder nonces with exotic '
+        'int() timestamps).  Non-trivial = an Authorization header was sent; distinct = distinct (configuration, method, '
+        'clock, header) tuple')
 
 CODEC = {'utf-8': 'utf8', 'utf8': 'utf8', 'iso-8859-1': 'latin1', 'latin-1': 'latin1', 'latin1': 'latin1',
          'ascii': 'ascii', 'us-ascii': 'ascii'}
@@ -340,10 +363,23 @@ class Clock:
         return self.now
 
 
+class SetupFailed(Exception):
+    """the anchored modules themselves cannot be imported / set up (as opposed to the harness environment)"""
+
+
 class World:
     def __init__(self):
-        import cherrypy
-        from cherrypy.lib import auth_digest, auth_basic
+        try:
+            import cherrypy
+        except Exception as e:
+            raise common.HarnessError('cherrypy cannot be imported: %r' % (e,))
+        try:
+            from cherrypy.lib import auth_digest, auth_basic
+            cherrypy.tools.auth_basic, cherrypy.tools.auth_digest
+        except (KeyboardInterrupt, common.HarnessError):
+            raise
+        except BaseException as e:      # noqa
+            raise SetupFailed('%s: %s' % (type(e).__name__, e))
         self.cherrypy = cherrypy
         self.auth_digest = auth_digest
         self.auth_basic = auth_basic
@@ -927,7 +963,12 @@ def _merge(ctx, r):
 
 def run(ctx):
     check_prims(ctx)
-    world = World()
+    try:
+        world = World()
+    except SetupFailed as e:
+        ctx.oracle_fail({'kind': 'setup'}, 'the authentication tools cannot be enabled at all: cherrypy.lib.auth_basic / '
+                        'auth_digest or cherrypy.tools.auth_* fail to import (%s)' % e, 'setup_failed')
+        return
     try:
         for e in ctx.known:
             if e.get('witness'):
